@@ -223,7 +223,7 @@ EventViol(e, D2, ta) ==
                          Opt(Tr.hdr, "maxdepth", 0),
                          \* (KF1) the result of an element that holds nothing itself -- an
                          \* uncached cells -- is tainted when it consumed a tainted value
-                         IF CalledThrough(D, NodeOfEv(D, e)) \cap (taint \cup ta) # {}
+                         IF CalledThroughAny(D, NodeOfEv(D, e)) \cap (taint \cup ta) # {}
                          THEN ta \cup {NodeOfEv(D, e)} ELSE ta)
               \cup (IF "tb" \in DOMAIN e THEN TracebackLabels(Tag, e.res, IF "tbx" \in DOMAIN e THEN e.tbx ELSE ChainOf(e.fx), e.tb) ELSE {})
          \* a cells that the definitions do not have (in a space they do have) answered with a value
